@@ -37,7 +37,16 @@ use crate::{
 pub enum Stream {
 	Load { spec: WavSpec },
 	Fault { spec: WavSpec, fault: Fault, streaming: bool },
-	StreamFile { spec: WavSpec, start: usize, seeks: Vec<(usize, usize)>, chunks: usize, chunk: usize },
+	StreamFile {
+		spec: WavSpec,
+		start: usize,
+		seeks: Vec<(usize, usize)>,
+		chunks: usize,
+		chunk: usize,
+		/// loop region in frames (start, exclusive end)
+		#[serde(default)]
+		loop_region: Option<(usize, usize)>,
+	},
 	Asset { name: String, fault: Fault, stream_start: f64 },
 }
 
@@ -130,6 +139,12 @@ fn gen_case(seed: u64, index: u64, tier: Tier) -> Case {
 				},
 				chunks,
 				chunk: if tail_seeks_ok { *rng.pick(&[64usize, 256, 1000]) } else { *rng.pick(&[64usize, 256, 1000]) },
+				loop_region: if rng.chance(0.35) {
+					let a = rng.usize_below(frames / 2);
+					Some((a, rng.urange(a + 2000, frames + 1)))
+				} else {
+					None
+				},
 			}
 		}
 		_ => {
@@ -217,12 +232,31 @@ fn stream_out(
 	chunk: usize,
 	res: &mut CaseResult,
 ) -> Option<(Vec<Frame>, Option<String>, PlaybackState)> {
+	stream_out_looped(seed, bytes, fault, sample_rate, start, seeks, chunks, chunk, None, res)
+}
+
+#[allow(clippy::too_many_arguments)]
+fn stream_out_looped(
+	seed: u64,
+	bytes: Vec<u8>,
+	fault: Fault,
+	sample_rate: u32,
+	start: f64,
+	seeks: &[(usize, f64)],
+	chunks: usize,
+	chunk: usize,
+	loop_region: Option<(f64, f64)>,
+	res: &mut CaseResult,
+) -> Option<(Vec<Frame>, Option<String>, PlaybackState)> {
 	let sim = Sim::new(seed);
 	let built = monitor::catch(move || {
 		let (src, _) = FaultyMediaSource::new(bytes, fault);
 		StreamingSoundData::from_media_source(src).and_then(|d| {
-			d.with_settings(StreamingSoundSettings::new().start_position(start))
-				.into_sound()
+			let mut settings = StreamingSoundSettings::new().start_position(start);
+			if let Some((a, b)) = loop_region {
+				settings = settings.loop_region(a..b);
+			}
+			d.with_settings(settings).into_sound()
 		})
 	});
 	let (mut sound, mut handle) = match built {
@@ -385,7 +419,7 @@ pub fn run_case(case: &Case) -> CaseResult {
 			});
 			beh.u64(*streaming as u64);
 		}
-		Stream::StreamFile { spec, start, seeks, chunks, chunk } => {
+		Stream::StreamFile { spec, start, seeks, chunks, chunk, loop_region } => {
 			if !exact_rate(spec.sample_rate) {
 				return res;
 			}
@@ -399,8 +433,24 @@ pub fn run_case(case: &Case) -> CaseResult {
 			};
 			let sr = spec.sample_rate as f64;
 			let seeks_s: Vec<(usize, f64)> = seeks.iter().map(|(at, f)| (*at, *f as f64 / sr + 0.25 / sr)).collect();
-			let Some((out, err, _)) = stream_out(case.seed, bytes, Fault::None, spec.sample_rate, *start as f64 / sr + 0.1 / sr, &seeks_s, *chunks, *chunk, &mut res) else {
+			let loop_s = loop_region.map(|(a, b)| (a as f64 / sr + 0.1 / sr, b as f64 / sr + 0.1 / sr));
+			let Some((out, err, _)) = stream_out_looped(case.seed, bytes, Fault::None, spec.sample_rate, *start as f64 / sr + 0.1 / sr, &seeks_s, *chunks, *chunk, loop_s, &mut res) else {
 				return res;
+			};
+			// with a loop region a seek target outside it may be wrapped into it (which way depends on
+			// where the decoder is at that moment): any of the three readings is accepted
+			let readings = |t: usize| -> Vec<usize> {
+				let mut v = vec![t];
+				if let Some((a, b)) = loop_region {
+					let len = b - a;
+					if t >= *b {
+						v.push(a + (t - a) % len);
+					}
+					if t < *a {
+						v.push(t + (a - t).div_ceil(len) * len);
+					}
+				}
+				v
 			};
 			if let Some(e) = err {
 				// a seek to or past the end of the audio may be answered with an error value
@@ -465,7 +515,7 @@ pub fn run_case(case: &Case) -> CaseResult {
 				}
 				if Some(abs) != expected_next {
 					// a jump: must be to a pending seek target (within one frame), within one ring of the seek
-					let landed = pending.iter().rposition(|t| (abs as i64 - *t as i64).abs() <= 1);
+					let landed = pending.iter().rposition(|t| readings(*t).iter().any(|r| (abs as i64 - *r as i64).abs() <= 1));
 					if landed.is_none() {
 						res.fail(Violation::new(
 							"streaming-equals-loading",
@@ -486,7 +536,21 @@ pub fn run_case(case: &Case) -> CaseResult {
 					res.fail(Violation::new("streaming-equals-loading", "seek-ignored", format!("output frame {k}: {frames_since_seek} frames after seek_to(frame {:?}) playback still runs on at frame {abs}", pending)));
 					return res;
 				}
-				expected_next = Some(abs + 1);
+				// (the position after the last frame of the loop region - or after any frame beyond it -
+				// is taken back into the region)
+				expected_next = Some(match loop_region {
+					Some((a, b)) => {
+						let mut p = abs + 1;
+						if p >= *b {
+							res.hit("stream_loop_wraps");
+						}
+						while p >= *b {
+							p -= b - a;
+						}
+						p
+					}
+					None => abs + 1,
+				});
 				if frames_since_seek != usize::MAX {
 					frames_since_seek += 1;
 				}
